@@ -12,7 +12,7 @@ from bs4.formatter import Formatter, HTMLFormatter, XMLFormatter
 from bs4.dammit import EntitySubstitution
 from props.c05 import Batch, G_to_str, build_from_origin
 
-RULE = ("trees as for C05 (documents written from a random tree model and parsed, token soup, API-built and edited trees, "
+RULE = ("trees as for C05, plus documents nested 140 / 300 (thorough: 600) elements deep (documents written from a random tree model and parsed, token soup, API-built and edited trees, "
         "HTML- and XML-flavoured, nested pre/textarea/script, void elements, empty and blank strings, every string class); "
         "starting element: the root and random inner tags (every tag of the tree in the thorough tier for small trees); "
         "formatter: every registry name of the tree's flavour (minimal, html, html5, html5-4.12, None) and Formatter objects "
@@ -368,6 +368,9 @@ def run(ctx):
             origins.append({"kind": "api", "seed": rng.randrange(1 << 40), "xml": i % 3 == 0, "rich": i % 4 != 1})
         for _ in range(n_edit):
             origins.append({"kind": "edit", "markup": G.gen_doc(rng), "seed": rng.randrange(1 << 40), "rich": rng.random() < 0.5})
+        # nesting far deeper than any fixed bound on indentation (indent * depth must hold at every depth)
+        for depth in ((140, 300, 600) if ctx.thorough else (140, 300)):
+            origins.append({"kind": "doc", "markup": G.gen_chain(rng, depth)})
         for k, origin in enumerate(origins):
             try:
                 root, xml, parsed = build_from_origin(origin)
@@ -399,7 +402,7 @@ def replay(ctx, data):
         root, xml, parsed = build_from_origin(origin)
         ctx.rng = random.Random(0)
         for _ in range(6):
-            check_tree(ctx, batch, origin, root, xml, parsed, every_start=True)
+            check_tree(ctx, batch, origin, root, xml, parsed, every_start=len(G.all_elements(root)) <= 40)
         batch.flush()
     for x in ctx.failures[:3]:
         print("FAIL", json.dumps(x, default=repr)[:1500])
